@@ -112,6 +112,209 @@ def corr_translate(ck):
     return ok and not failing
 
 
+# ---------------------------------------------------------------------------------------------------------------
+# registries (coq/model/StereoRegistry.v)
+
+def reshuffle(m, rng):
+    """the same molecule with other atom numbers, another insertion order of the atoms and of every neighbour dict:
+    a state that adding the atoms and bonds in that order through the public API produces"""
+    new = m.copy()
+    nums = list(new._atoms)
+    new.remap(dict(zip(nums, rng.sample(range(1, 3 * len(nums) + 3), len(nums)))))
+    keys = list(new._atoms)
+    rng.shuffle(keys)
+    new._atoms = {k: new._atoms[k] for k in keys}
+    new._bonds = {k: dict(rng.sample(list(new._bonds[k].items()), len(new._bonds[k]))) for k in keys}
+    new.flush_cache()
+    return new
+
+
+def registry_inputs(ck):
+    """(family, molecule) pairs: cumulene chains of every length 2..6 with every end decoration (none, one, two substituents,
+    explicit H), heteroatom / hypervalent / metal / charged / radical / triple-bond / special-bond environments, malformed
+    valences, ring cumulenes, corpus molecules; each also with shuffled numbering and insertion orders"""
+    from chython import smiles
+    rng = random.Random(f'{ck.seed}:registry')
+    out = []
+    ends_l = ['C', 'FC', '[H]C', 'FC(Cl)', '[H]C(F)', '[H]C([H])', 'FC([H])', 'N', 'CN', 'O', 'S', 'CP', 'C[Si](C)', 'C[S](C)(C)',
+              '[Li]C', 'FC(~[Pd])', 'C#CC', 'O=C', '[O-][N+](=O)C', 'FB', '[CH-]']
+    ends_r = ['C', 'CF', 'C[H]', 'C(F)Cl', 'C(F)[H]', 'C([H])[H]', 'C([H])F', 'N', 'NC', 'O', 'S', 'PC', '[Si](C)C', 'S(C)(C)C',
+              'C[Mg]C', 'C(F)~[Pd]', 'CC#C', 'C=O', 'C[N+](=O)[O-]', 'BF', '[CH-]']
+    zoo = ['CS(=O)C', 'O=S(=O)(C)C', 'C=S(C)(C)=C', 'O=C=O', 'C=CC=C', 'C1=CC=C1', 'OS(=O)(=O)O', 'C=C=S(=O)=O', 'C=[N+]=[N-]',
+           'FC(Cl)=[Fe]', 'FC(Cl)=[Si](Br)I', 'C1=CC=CC=C1', 'C1CCCCCC=C=C1', 'C1CCC=C=CCCC=C=C1', 'C1CC1=C=C1CC1', 'FC1CCC(=C=CCl)CC1',
+           'C(F)(F)(F)(F)(F)F', '[Li]C(F)(Cl)Br', 'F[C](Cl)Br', 'F[C-](Cl)Br', 'F[C+](Cl)Br', '[H]C(F)(Cl)Br', '[H]C([H])(F)Cl',
+           '[H]C([H])([H])F', 'C(F)(Cl)(Br)I', 'C[C@H](N)C(=O)O', 'C12(CCC1)CCC2', 'FC(Cl)(Br)~[Pd]', 'FC(Cl)(Br)[Mg]C', 'C[Al](C)C(F)(Cl)Br',
+           'FC(F)(F)S(F)(F)(F)(F)F', 'O=P(O)(O)C=C', 'CC=NO', 'C/C=N/O', 'FC=C=C=C=C=C=CF', 'F/C=C/C=C/C=C\\Cl', 'c1ccccc1C=C', 'C=C1C=CC(=C)C=C1',
+           'O=C1C=CC(=O)C=C1', 'N#CC=C=C', 'C[N+](C)=C=[N-]', 'C=S(=O)(=O)=C', 'C=S(=C)(=C)=C', 'O=[Xe](=O)(=O)=O', 'O=[Os](=O)(=O)=O',
+           'C=C=C.C=C=C=C', '[H]C([H])=C=C([H])F', 'FC(Cl)=C=C=C=C(Br)I', 'C', '[H][H]', 'C=C', 'C#C']
+    for smi in zoo:
+        out.append(('zoo', smi))
+    for k in range(0, 5):
+        for l in ends_l:
+            for r in (ends_r if k < 2 or ck.tier != 'quick' else ends_r[:8]):
+                out.append((f'chain{k + 2}', f'{l}={"C=" * k}{r}'))
+    npool = 120 if ck.tier == 'quick' else 1200
+    for smi in corpus.sample(corpus.lipo(), npool, ck.seed, 'c12reg'):
+        out.append(('corpus', smi))
+    mols = []
+    for fam, smi in out:
+        try:
+            m = smiles(smi)
+        except Exception:
+            ck.count('registry:unreadable input skipped')
+            continue
+        if m is None or not hasattr(m, '_bonds'):
+            continue
+        mols.append((fam, smi, m))
+        mols.append((fam + ':shuffled', smi, reshuffle(m, rng)))
+    return mols
+
+
+def reg_py(m):
+    """the registries of the real code, as plain Python data (dict -> list of items, in insertion order)"""
+    return {'tetrahedrons': list(m.tetrahedrons), 'cumulenes': [list(p) for p in m.cumulenes],
+            'sg_th': [(n, list(e)) for n, e in m.stereogenic_tetrahedrons.items()],
+            'sg_cum': [(list(p), tuple(e)) for p, e in m.stereogenic_cumulenes.items()],
+            'sg_al': list(m.stereogenic_allenes.items()), 'sg_ct': list(m.stereogenic_cis_trans.items()),
+            'al_terminals': list(m._stereo_allenes_terminals.items()), 'al_centers': list(m._stereo_allenes_centers.items()),
+            'ct_centers': list(m._stereo_cis_trans_centers.items()), 'ct_terminals': list(m._stereo_cis_trans_terminals.items()),
+            'ct_counterpart': list(m._stereo_cis_trans_counterpart.items())}
+
+
+def envterm(e):
+    return f'({zraw(e[0])}, {zraw(e[1])}, {opt(e[2], zraw)}, {opt(e[3], zraw)})'
+
+
+def zzterm(p):
+    return f'({zraw(p[0])}, {zraw(p[1])})'
+
+
+def reg_term(r):
+    return ('(mkReg ' + ' '.join([
+        lst(r['tetrahedrons'], zraw), lst([lst(p, zraw) for p in r['cumulenes']]),
+        lst([tup(zraw(n), lst(e, zraw)) for n, e in r['sg_th']]),
+        lst([tup(lst(p, zraw), envterm(e)) for p, e in r['sg_cum']]),
+        lst([tup(zraw(c), envterm(e)) for c, e in r['sg_al']]),
+        lst([tup(zzterm(k), envterm(e)) for k, e in r['sg_ct']]),
+        lst([tup(zraw(c), zzterm(t)) for c, t in r['al_terminals']]),
+        lst([tup(zraw(t), zraw(c)) for t, c in r['al_centers']]),
+        lst([tup(zraw(t), zzterm(c)) for t, c in r['ct_centers']]),
+        lst([tup(zraw(t), zzterm(c)) for t, c in r['ct_terminals']]),
+        lst([tup(zraw(t), zraw(c)) for t, c in r['ct_counterpart']])]) + ')')
+
+
+REG_EXTRA = '''
+Definition reg_ok (g : mol) (r : registries) : bool :=
+  match registries_real g with Ok r' => reg_eqb r' r | Err _ => false end && pops_single el_double g.
+Definition reg_err (g : mol) (e : pyexn) : bool :=
+  match registries_real g with Ok _ => false | Err e' => pyexn_eqb e e' end.
+'''
+
+
+def corr_registries(ck):
+    """the registries of chython/algorithms/stereo.py on real molecules == coq/model/StereoRegistry.v (every registry compared
+    as an ordered list, i.e. including dict insertion order), and every set.pop() of `cumulenes` acts on a singleton"""
+    import coqmol
+    cases, meta = [], []
+    for fam, smi, m in registry_inputs(ck):
+        g = coqmol.mol_term(m)
+        try:
+            r = reg_py(m)
+        except Exception as e:
+            cases.append(f'reg_err {g} {EXN.get(type(e).__name__, "OtherError")}')
+            meta.append((fam, smi, 'raises ' + type(e).__name__))
+            ck.count('registry:raises ' + type(e).__name__)
+            ck.case(('reg', fam, smi), nontrivial=True)
+            continue
+        cases.append(f'reg_ok {g} {reg_term(r)}')
+        meta.append((fam, smi, list(m._atoms)))
+        nontrivial = bool(r['sg_th'] or r['sg_cum'] or r['cumulenes'])
+        ck.case(('reg', fam, smi, tuple(m._atoms)), nontrivial=nontrivial)
+        ck.count('registry:' + fam.split(':')[0])
+        ck.count('registry: stereogenic tetrahedrons', len(r['sg_th']))
+        ck.count('registry: cumulene paths', len(r['cumulenes']))
+        ck.count('registry: stereogenic cumulenes', len(r['sg_cum']))
+        ck.count('registry: allenes', len(r['sg_al']))
+    ok, failing, log = coqcases.run_cases('c12reg', 'Graph Stereo StereoRegistry', cases, extra=REG_EXTRA, shard=40)
+    ck.oblige('correspondence: tetrahedrons / cumulenes / stereogenic_* / _stereo_* registries == Coq model (ordered)', ok and not failing,
+              'correspondence', log or str([meta[i] for i in failing[:5]]))
+    ck.extra['registry_cases'] = len(cases)
+    if cases:
+        ck.sample({'model_call': cases[0][:600], 'meta': repr(meta[0])})
+    if not ok or failing:
+        directed_registry_search(ck, [meta[i] for i in failing[:20]])
+        ck.unchecked('correspondence StereoRegistry model vs chython/algorithms/stereo.py registries', log[-1500:],
+                     [repr(meta[i]) for i in failing[:20]])
+    return ok and not failing
+
+
+def registry_oracle(m):
+    """independent property-level statements about the registries of one molecule, written from the docstrings:
+    returns a list of complaints"""
+    bad = []
+    atoms, bonds = m._atoms, m._bonds
+    # every cumulene path is a chain of double bonds; distinct paths share no double bond
+    used = set()
+    for p in m.cumulenes:
+        for a, c in zip(p, p[1:]):
+            if c not in bonds[a] or int(bonds[a][c]) != 2:
+                bad.append(f'cumulene path {p} steps over a non-double bond {a}-{c}')
+            if frozenset((a, c)) in used:
+                bad.append(f'double bond {a}={c} is in two cumulene paths')
+            used.add(frozenset((a, c)))
+        if len(set(p)) != len(p):
+            bad.append(f'cumulene path {p} repeats an atom')
+    # stereogenic tetrahedron: the environment lists exactly the non-hydrogen neighbours
+    for n, env in m.stereogenic_tetrahedrons.items():
+        if sorted(env) != sorted(x for x in bonds[n] if atoms[x].atomic_number != 1) or len(env) not in (3, 4) or len(bonds[n]) > 4:
+            bad.append(f'stereogenic_tetrahedrons[{n}] = {env} is not the set of non-hydrogen neighbours')
+    # stereogenic cumulene: the environment lists neighbours of the two ends, first end first
+    for p, (n0, n1, n2, n3) in m.stereogenic_cumulenes.items():
+        a, c = p[0], p[-1]
+        if n0 not in bonds[a] or n1 not in bonds[c] or (n2 is not None and n2 not in bonds[a]) or (n3 is not None and n3 not in bonds[c]):
+            bad.append(f'stereogenic_cumulenes[{p}] lists a non-neighbour of its end')
+        if n0 == p[1] or n1 == p[-2] or n2 == p[1] or n3 == p[-2]:
+            bad.append(f'stereogenic_cumulenes[{p}] lists a chain atom as substituent')
+    for c, (a, e) in m._stereo_allenes_terminals.items():
+        if m._stereo_allenes_centers.get(a) != c or m._stereo_allenes_centers.get(e) != c:
+            bad.append(f'allene centre {c}: terminals and centres registries disagree')
+    for (a, e) in m.stereogenic_cis_trans:
+        if m._stereo_cis_trans_counterpart.get(a) != e and m._stereo_cis_trans_counterpart.get(e) != a:
+            bad.append(f'cis/trans {a},{e}: counterpart registry disagrees')
+    return bad
+
+
+def directed_registry_search(ck, metas):
+    """on a broken registry correspondence: property-level oracle on and around the disagreeing molecules (numbering orders)"""
+    from chython import smiles
+    rng = random.Random(f'{ck.seed}:regdirected')
+    for fam, smi, _ in metas:
+        try:
+            m0 = smiles(smi)
+        except Exception:
+            continue
+        ref = None
+        for k in range(8):
+            m = reshuffle(m0, rng) if k else m0
+            try:
+                bad = registry_oracle(m)
+            except Exception as e:
+                bad = [f'registry raises {type(e).__name__}: {e}']
+            if bad:
+                ck.counterexample(f'registry:{smi}', 'a stereo registry contradicts its documented meaning: ' + bad[0], {'smiles': smi, 'atoms': list(m._atoms)},
+                                  bad[:3], 'registries as documented', 'independent reading of the docstrings',
+                                  replay_py=f"from chython import smiles; m=smiles({smi!r}); print(m.cumulenes, m.stereogenic_cumulenes, m.stereogenic_tetrahedrons)")
+                break
+            # the number of registry entries must not depend on numbering / insertion order
+            sig = (len(m.tetrahedrons), sorted(len(p) for p in m.cumulenes), len(m.stereogenic_tetrahedrons), len(m.stereogenic_cumulenes))
+            if ref is None:
+                ref = sig
+            elif sig != ref:
+                ck.counterexample(f'registry-order:{smi}', 'the stereo registries depend on atom numbering / insertion order', {'smiles': smi, 'atoms': list(m._atoms)},
+                                  sig, ref, 'renumbering', replay_py=f"from chython import smiles; m=smiles({smi!r}); print(m.cumulenes)")
+                break
+
+
 def search(ck, budget):
     """property-level oracles on the real code, independent of the model"""
     from chython import smiles
@@ -227,6 +430,7 @@ def search(ck, budget):
     ck.extra['rdkit_agreements'] = n_ok
     search_stereogenic(ck, pool)
     search_allenes(ck)
+    search_printable(ck)
     # (3) labels are kept only on stereogenic centres
     for smi, keeps in (('C[C@](C)(F)Cl', False), ('C[C@H](C)F', False), ('C[C@H](N)F', True), ('F/C=C(/Cl)Cl', False),
                        ('F/C=C/Cl', True), ('CC(C)=[C@]=CC', False), ('C[C@@H]1CC1', False), ('C/C=C/C', True)):
@@ -265,6 +469,8 @@ def search_stereogenic(ck, pool):
     fam += [(x, 'acyclic') for x in ('C[C@](C)(F)Cl', 'CC[C@](CC)(F)Cl', 'C[C@H](C)O', 'C[C@H](CC)O', 'CC[C@](C)(F)Cl', 'F[C@](F)(Cl)Br',
                                      'C[C@@H](N)C(=O)O', 'OC(=O)[C@H](O)C(=O)O', 'C/C=C(/C)C', 'C/C=C(/C)CC', 'F/C=C(/F)F', 'F/C=C/F',
                                      'C[C@H]1CC1', 'C[C@H]1CCC1', 'C[C@H]1CCO1', 'C[C@@H]1CCCCC1', 'C[C@@H]1CCCC(C)C1')]
+    # double bonds at hypervalent S / P (four neighbours: not planar, so no cis/trans): finding hypervalent-double-bond
+    fam += [(x, 'hypervalent') for x in ('C/N=S(/C)(C)=O', 'C/C=P(/C)(C)C', 'C/N=S(/C)(=O)c1ccccc1', 'CN=S(C)(C)=O')]
     fam += [(x, 'corpus') for x in pool]
     for smi, family in fam:
         rd = Chem.MolFromSmiles(smi)
@@ -293,6 +499,41 @@ def search_stereogenic(ck, pool):
             ck.counterexample(f'label-dropped:{smi}', 'the label of a stereogenic centre (kept by RDKit) is dropped on reading',
                               {'smiles': smi, 'family': family}, str(m), f'{kept_rd} label(s): {Chem.MolToSmiles(rd)}', 'RDKit',
                               replay_py=f"from chython import smiles; print(smiles({smi!r}))")
+
+
+def search_printable(ck):
+    """every molecule that smiles() returns can be written, hashed and compared (str / hash / == never raise): cut cumulene
+    chains at hypervalent atoms share an end atom between two cis/trans entries (finding str-raises)"""
+    from chython import smiles
+    for smi in ('C/N=S(/C)(C)=NC', 'C/N=S(/C)(C)=N/C', 'C/C=S(/C)(C)=C/C', 'CN=S(C)(C)=NC', 'C/C=C/S(C)(=O)=NC', 'F/C=C=S(=O)=NC',
+                'C/N=S(/C)(C)=O', 'C/C=C=C=C/C', 'C/C=C/C=C/C', 'O=S(=O)(/C=C/C)N=C'):
+        try:
+            m = smiles(smi)
+        except Exception:
+            continue
+        ck.case(('printable', smi))
+        ck.count('printable: hypervalent / conjugated double bonds')
+        try:
+            s = str(m)
+            hash(m)
+            smiles(s)
+        except Exception as e:
+            ck.counterexample(f'str-raises:{smi}', f'a molecule returned by smiles() cannot be written: str() raises {type(e).__name__}',
+                              {'smiles': smi}, repr(e), 'a SMILES string', 'totality of str() on reader output',
+                              replay_py=f"from chython import smiles; m=smiles({smi!r}); print(str(m))")
+
+
+def replay_refuted(ck):
+    """the witness of C12_cis_trans_terminals_maximal_refuted on the real code: in FC=C=S(=O)=NC the inner bond C2=C3 of the linear
+    C=C=S unit is a key of stereogenic_cis_trans although atom 3 carries two double bonds"""
+    from chython import smiles
+    m = smiles('FC=C=S(=O)=NC')
+    ok = (2, 3) in m.stereogenic_cis_trans and sum(1 for b in m._bonds[3].values() if int(b) == 2) == 2 and list(m._atoms) == [1, 2, 3, 4, 5, 6, 7]
+    ck.oblige('replay: witness of C12_cis_trans_terminals_maximal_refuted on the real code (FC=C=S(=O)=NC)', ok, 'replay',
+              f'stereogenic_cis_trans = {m.stereogenic_cis_trans}')
+    ck.case(('refuted-replay', 'FC=C=S(=O)=NC'))
+    if not ok:
+        ck.unchecked('refuted witness no longer replays: the model of `cumulenes` must follow the code', str(m.stereogenic_cis_trans))
 
 
 def search_allenes(ck):
@@ -408,8 +649,10 @@ def run(ck):
     ck.extra['rule'] = ('correspondence: every (molecule, env arrangement incl. malformed, sign) of 5+7+4 seed molecules, random integer points for the '
                         'geometric functions; non-trivial = the implementation returned a sign (not an exception). search: corpus stereo molecules '
                         'respelled by chython and re-read by RDKit; non-trivial = has at least one stereo element')
-    proved = common.standard_proof_steps(ck, translators=['stereo'])
+    proved = common.standard_proof_steps(ck, translators=['stereo', 'elements'], extra_targets=['model/StereoRegistry.vo'])
     tied = corr_translate(ck)
+    tied = corr_registries(ck) and tied
+    replay_refuted(ck)
     search(ck, 150 if ck.tier == 'quick' else 1500)
     ck.extra['proved'] = proved
     ck.extra['tied'] = tied
